@@ -124,6 +124,28 @@ NextMux ==
        \/ SChangeSame("ok") \/ SChangeSame("rej") \/ SDelComp("ok") \/ SSetCompPhases("ok")
 SpecMux == (Init /\ step = 0 /\ act = [op |-> "init", a |-> <<>>]) /\ [][NextMux]_<<vars, step, act>>
 
+\* delete-then-regrow histories: a tree is built, an early component is deleted (its node index becomes free), new
+\* components are added in a chain below later ones (the freed index is re-used by an inner node that then gets
+\* children), and again
+JustAdded == IF act.op = "add_comp" /\ act.a.comp.name \in Names(sys) /\ Kind(sys, act.a.comp.name) # "LOAD"
+             THEN {act.a.comp.name} ELSE {}
+BGrow ==
+  \E p \in (IF JustAdded # {} THEN JustAdded ELSE Pick(1, NonLoads)), name \in Pick(1, FreeNames),
+     cls \in Pick(2, ClassU \ {"Source", "PMux"}), rail \in Pick(1, FreeRails), group \in Pick(1, GroupU) :
+     X("ok", "add_comp", [refs |-> <<p>>, aslist |-> FALSE, comp |-> C(name, cls, 0), rail |-> rail, group |-> group])
+BInner ==
+  \E p \in Pick(1, NonLoads), name \in Pick(1, FreeNames), cls \in Pick(1, {"Converter", "LinReg", "RLoss", "PSwitch", "VLoss"}),
+     rail \in Pick(1, FreeRails), group \in Pick(1, GroupU) :
+     X("ok", "add_comp", [refs |-> <<BRef(p)>>, aslist |-> FALSE, comp |-> C(name, cls, 0), rail |-> rail, group |-> group])
+BDelEarly ==
+  \E target \in Pick(2, Names(sys) \ Sources(sys)), delchilds \in BOOLEAN :
+     X("ok", "del_comp", [target |-> target, delchilds |-> delchilds])
+NextReuse ==
+  IF step < 5 THEN BInner \/ BInner \/ BAddComp \/ BAddSource \/ BAddMux
+  ELSE IF step \in {5, 9} THEN BDelEarly
+  ELSE BGrow \/ BGrow \/ BAddMux
+SpecReuse == (Init /\ step = 0 /\ act = [op |-> "init", a |-> <<>>]) /\ [][NextReuse]_<<vars, step, act>>
+
 SpecSim == (Init /\ step = 0 /\ act = [op |-> "init", a |-> <<>>]) /\ [][NextSim]_<<vars, step, act>>
 
 CfgConfSim == {[t |-> "list", v |-> <<"p">>], [t |-> "list", v |-> <<"q", "s">>],
